@@ -13,7 +13,7 @@ K = lambda name, file, fn: dict(name=name, target=("oxidize-pdf-core/src/" + fil
 
 PROPS = {
     "C01": dict(
-        verus=["tokenizer", "runlength", "gss", "xrefstream", "glyf", "guards", "predictor", "pngrows"],
+        verus=["tokenizer", "runlength", "gss", "xrefstream", "glyf", "guards", "predictor", "pngrows", "flatten"],
         kani=[K("c01_hex_digit_value", "parser/filters.rs", "hex_digit_value")],
         level_text="panic-freedom (index, slice range, overflow, division), termination and output bounds proved per listed function for all inputs; the whole-program 'never crashes' claim is NOT made",
         not_decided="the I/O shells (reader.rs, xref.rs parse/recovery, object_stream.rs, page_tree.rs), LZW dictionary growth, CCITT/JBIG2/DCT decoders, text extraction, allocation sizes, wall-clock bounds",
@@ -57,6 +57,11 @@ PROPS = {
     "C17": dict(
         verus=["incr", "prevmerge"],
         not_decided="write_trailer text, /ID computation (md5), that the chain parses in a reader, incremental_form_fill / incremental_text_notes field-tree resolution; termination of write_object/write_dictionary (recursion through an opaque dictionary) is not proved",
+    ),
+    "C18": dict(
+        verus=["flatten"],
+        level_text="flatten_page_tree terminates, returns at most MAX_PAGES references and no reference twice, for ANY behaviour of the reader (cyclic, shared, lying trees); document order and attribute inheritance are not decided",
+        not_decided="document order equals the DFS order of the real tree, inheritance of Resources/MediaBox/CropBox/Rotate, page_count fallbacks",
     ),
     "C05": dict(
         verus=["rc4"],
